@@ -6,12 +6,13 @@ open XotModel.Props
 #print axioms C10_stack_push
 #print axioms C10_stack_pop
 #print axioms C10_resolve_lookup
-#print axioms C10_sound_partial
+#print axioms C10_sound_prefix
+#print axioms C10_sound
+#print axioms C10_sound_refused
 #print axioms C10_sound_attribute
-#print axioms C10_sound_false
 #print axioms C10_error_element
 #print axioms C10_error_attribute
 #print axioms C10_stack_traversal
-#print axioms C10_sound_tree_partial
-#print axioms C10_sound_tree_endtag_partial
+#print axioms C10_sound_tree
+#print axioms C10_sound_tree_endtag
 #print axioms C10_sound_tree_attribute
